@@ -35,6 +35,7 @@ class OnionWorld:
         self.ident_map = {}     # (kind, node, real) -> spec ident
         self.n_ident = 0
         self.raw_log = []       # on_raw_data observations at originators
+        self.flipped = {}       # datagram seq -> {(pos, bit)} already altered
         self.on_step = None     # callback(world, event) after every logged step (property-specific probes)
         self.adv_keys = []      # session keys the attacker could derive from its own handshake material
         self.orig_cid = {}      # datagram seq -> circuit id it carried before the attacker rewrote it
@@ -391,12 +392,21 @@ class OnionWorld:
         c = Datagram(self.net.seq, d.src, d.dst, d.data, d.sender)
         self.net.wire.append(c)
         self.net.inflight.append(c)
+        if seq in self.flipped:
+            self.flipped[c.seq] = set(self.flipped[seq])
+        if seq in self.orig_cid:
+            self.orig_cid[c.seq] = self.orig_cid[seq]
         return self.log("Dup", id=seq)
 
     # -- adversary steps (bytes are really altered / fabricated)
     def tamper(self, seq, pos=None, bit=0):
         d = self.net.inflight[self.find(seq)]
         pos = 29 + self.rng.randrange(len(d.data) - 29) if pos is None else pos
+        done = self.flipped.setdefault(seq, set())
+        while (pos, bit) in done:                       # flipping the same bit twice would restore the cell
+            pos = 29 + self.rng.randrange(len(d.data) - 29)
+            bit = self.rng.randrange(8)
+        done.add((pos, bit))
         b = bytearray(d.data)
         b[pos] ^= (1 << bit)
         d.data = bytes(b)
@@ -573,9 +583,9 @@ class OnionWorld:
             _shared, key, auth = crypto.generate_diffie_shared_secret(create)
             self.adv_keys.append(crypto.generate_session_keys(_shared))
         elif how == "auth":
-            auth = bytes([auth[0] ^ 1]) + auth[1:]
+            auth = self.rng.randbytes(len(auth))          # fresh random tag: repeating the manipulation never restores it
         elif how == "cands":
-            cands = bytes([cands[0] ^ 1]) + cands[1:] if cands else b"\x01"
+            cands = self.rng.randbytes(max(1, len(cands)))
         npl = CreatedPayload(new_cid, ident, key, auth, cands)
         message = bytes([3]) + ov.serializer.pack_serializable(npl)[4:]
         d.data = self._cell_bytes(new_cid, True, data[28] != 0, message)
